@@ -92,6 +92,10 @@ static int parseConvertElement(MPT_INTERFACE(convertable) *conv, MPT_TYPE(type) 
 	else if ((len = mpt_convert_string(it->val, type, dest)) < 0) {
 		return len;
 	}
+	/* only white space remains: no element was converted */
+	else if (!len) {
+		return MPT_ERROR(MissingData);
+	}
 	/* terminate consumed substring */
 	it->restore = it->val + len;
 	if (it->restore >= it->end) {
